@@ -340,6 +340,8 @@ func (o *vfValueOracle) onAckRollback(kid vfKeyId, r *vfReq) {
 		st.LastOp, st.LastSig = "rollback of "+vfJSON(r.Op.Data), ""
 		if r.Op.Data.Type == protocol.LOCK_DATA_COMMAND_TYPE_PIPELINE {
 			st.LastSig = "rollback-of-pipeline"
+		} else if p.prev.Absent {
+			st.LastSig = "rollback-onto-a-key-without-value"
 		}
 		o.sh.stats["value_rollbacks_exact"]++
 	} else {
